@@ -58,7 +58,7 @@ def check(run, ctx):
     ok = run.need('R1', stop, 'stop-signal send in kill_process', f)
     ok &= run.need('R1', kill, 'SIGKILL send in kill_process', f)
     loops = [t for t in cfg.nodes if t.kind == 'test' and isinstance(t.stmt, ast.While)
-             and astq.compare_orderings(t.ast, is_waited, is_timeout) is not None]
+             and astq.guard_orderings(t.ast, is_waited, is_timeout) != {'<', '=', '>'}]
     ok &= run.need('R2', loops, 'wait loop `while waited < graceful_timeout`', f)
     if not ok:
         return
@@ -93,7 +93,7 @@ def r1(run, ctx, f, cfg, stop, kill, loops):
 def r2(run, ctx, f, cfg, stop, kill, loops):
     run.rule('R2', 'timeout guards as orderings of waited vs graceful_timeout')
     loop = loops[0]
-    o = astq.compare_orderings(loop.ast, is_waited, is_timeout)
+    o = astq.guard_orderings(loop.ast, is_waited, is_timeout)
     run.check('R2', o == {'<'}, 'the wait loop continues only while waited < graceful_timeout',
               f, loop.ast, 'wait-loop guard is true under orderings %s' % sorted(o or []))
     body = cfg.branch_nodes(loop, 'true')
